@@ -36,11 +36,16 @@ def resolved_modes(hk):
     return tuple((k, f[k]["mode"]) for k in ("as_str", "from_str", "FromStr", "iter") if f[k]["enabled"])
 
 
+def c09_key(c):
+    # the probe domain is part of the script: only cases recorded under the same one are comparable
+    return "%s|%s|%s|%s" % (c.decl.key(), c.context, c.probe_lo, c.probe_hi)
+
+
 def groups_for(prop: str, g: RunGroup):
     groups = {}
     for c in g.cases.values():
         if prop == "C09":
-            key = "%s|%s" % (c.decl.key(), c.context)
+            key = c09_key(c)
         elif prop == "C16":
             key = c.tags.get("c16")
         else:
@@ -77,7 +82,7 @@ def run(prop: str, tier: str, seed: int) -> int:
                 c = planned.get(cid)
                 if c is None:
                     continue
-                gkey = {"C09": "%s|%s" % (c.decl.key(), c.context), "C16": c.tags.get("c16"),
+                gkey = {"C09": c09_key(c), "C16": c.tags.get("c16"),
                         "C18": c.tags.get("c18")}[prop]
                 if gkey is None or gkey not in groups:
                     continue
